@@ -540,7 +540,21 @@ def r6_whitespace_merge(rep, src, loop):
        newline-terminated mode: every merged line ends with a newline and is appended unchanged;
        no-newline mode: merged lines carry no newline and each is appended with exactly one;
     and the resulting token texts satisfy the invariant extracted from Deb822Token._verify_token_text."""
-    f = src.func(TK + ':tokenize_deb822_file')
+    f0 = src.func(TK + ':tokenize_deb822_file')
+    # (the look-ahead may sit in a private helper: the function with its helpers in place, the line loop at its position)
+    from ..core import Func, set_parents
+    fnode_, inl_ = normalize.inline_helpers(f0)
+    if inl_ and len(fnode_.body) == len(f0.node.body):
+        set_parents(fnode_)
+        idx_ = f0.node.body.index(loop)
+        f = Func(f0.module, fnode_, f0.qual, f0.cls)
+        loop = fnode_.body[idx_]
+        for q_ in inl_:
+            h_ = f0.module.funcs.get(q_)
+            if h_ is not None:
+                rep.saw_func(h_)
+    else:
+        f = f0
     alpha = rx.alphabet('str')
     anyl = rx.regex_lang('(?s:.*)', 0, 'fullmatch', alpha=alpha)
     ends_nl = rx.regex_lang(r'(?s:.*)\n', 0, 'fullmatch', alpha=alpha)
